@@ -9,13 +9,16 @@ Record obs := mkObs {
   ob_val : option nat;        (* Get/Take: value returned *)
   ob_err : bool;              (* Take: error returned *)
   ob_fetched : bool;          (* Take: the fetch function ran *)
-  ob_keys : list nat          (* keys of the data map after the call *)
+  ob_keys : list nat;         (* keys of the data map after the call *)
+  ob_timers : list nat        (* keys with a pending timer in the wheel's index after the call *)
 }.
 
 Record ccase := mkcase {
   c_exp : Z;                  (* NewCache(expire), nanoseconds *)
   c_limit : Z;                (* WithLimit *)
   c_phase : nat;              (* wheel ticks before the first call *)
+  c_ivl : Z;                  (* interval of the wheel the cache runs on, nanoseconds (NewCache: one second) *)
+  c_hung : bool;              (* the driver gave up waiting: the cache or its wheel got stuck *)
   c_ops : list cop;
   c_obs : list obs
 }.
@@ -43,7 +46,8 @@ Fixpoint model_run (c : wheel_cache) (ops : list cop) (os : list obs) : bool :=
           option_eqb Nat.eqb r (ob_val ob) &&
           Bool.eqb (ob_err ob) (is_take o && match r with None => true | Some _ => false end) &&
           Bool.eqb (ob_fetched ob) fetched &&
-          perm_b (map fst (c_data c')) (ob_keys ob) && model_run c' ops' os'
+          perm_b (map fst (c_data c')) (ob_keys ob) &&
+          perm_b (map fst (C10.Model.timers (c_ts c'))) (ob_timers ob) && model_run c' ops' os'
       end
   | _, _ => false
   end.
@@ -51,44 +55,47 @@ Fixpoint model_run (c : wheel_cache) (ops : list cop) (os : list obs) : bool :=
 Fixpoint iter {A} (n : nat) (f : A -> A) (a : A) : A := match n with O => a | S n' => iter n' f (f a) end.
 
 Definition cache_model_ok (c : ccase) : bool :=
-  model_run (iter (c_phase c) (ctick C10.Model.step_ok) (wnew (c_exp c) (c_limit c))) (c_ops c) (c_obs c).
+  negb (c_hung c) && (0 <? c_ivl c)%Z &&
+  model_run (iter (c_phase c) (ctick C10.Model.step_ok) (wnew_at (Z.to_pos (c_ivl c)) (c_exp c) (c_limit c))) (c_ops c) (c_obs c).
 
 (* ---- the property on the observations: replayed on the reference cache of Spec.v ---- *)
+(* the stored keys are the reference's, within the limit, and every stored entry has a pending timer
+   (an entry whose SetTimer/MoveTimer was rejected or lost would never expire) *)
 Definition keys_ok (limit : Z) (r : list rentry) (ob : obs) : bool :=
-  perm_b (map rkey r) (ob_keys ob) && ((limit <=? 0)%Z || (length (ob_keys ob) <=? Z.to_nat limit)).
+  perm_b (map rkey r) (ob_keys ob) && forallb (fun k => existsb (Nat.eqb k) (ob_timers ob)) (ob_keys ob) && ((limit <=? 0)%Z || (length (ob_keys ob) <=? Z.to_nat limit)).
 
-Fixpoint spec_run (limit dflt : Z) (T : nat) (r : list rentry) (ops : list cop) (os : list obs) : bool :=
+Fixpoint spec_run (I limit dflt : Z) (T : nat) (r : list rentry) (ops : list cop) (os : list obs) : bool :=
   match ops, os with
   | [], [] => true
   | o :: ops', ob :: os' =>
       match o with
       | KSet k v _ =>
-          if negb (in_scope dflt) then true else
-          let r' := rput limit (k, v, T, dflt) r in keys_ok limit r' ob && spec_run limit dflt T r' ops' os'
+          if negb (in_scope I dflt) then true else
+          let r' := rput limit (k, v, T, dflt) r in keys_ok limit r' ob && spec_run I limit dflt T r' ops' os'
       | KSetX k v e _ =>
-          if negb (in_scope e) then true else
-          let r' := rput limit (k, v, T, e) r in keys_ok limit r' ob && spec_run limit dflt T r' ops' os'
+          if negb (in_scope I e) then true else
+          let r' := rput limit (k, v, T, e) r in keys_ok limit r' ob && spec_run I limit dflt T r' ops' os'
       | KGet k =>
           let r' := rtouch k r in
           option_eqb Nat.eqb (option_map rval (rfind k r)) (ob_val ob) && keys_ok limit r' ob &&
-          spec_run limit dflt T r' ops' os'
-      | KDel k => let r' := rdel k r in keys_ok limit r' ob && spec_run limit dflt T r' ops' os'
+          spec_run I limit dflt T r' ops' os'
+      | KDel k => let r' := rdel k r in keys_ok limit r' ob && spec_run I limit dflt T r' ops' os'
       | KTake k f _ =>
           match rfind k r with
           | Some e =>      (* cached: returned without fetching *)
               let r' := rtouch k r in
               option_eqb Nat.eqb (Some (rval e)) (ob_val ob) && negb (ob_err ob) && negb (ob_fetched ob) &&
-              keys_ok limit r' ob && spec_run limit dflt T r' ops' os'
+              keys_ok limit r' ob && spec_run I limit dflt T r' ops' os'
           | None =>
               match f with
               | Some v =>  (* fetched once, returned and cached *)
-                  if negb (in_scope dflt) then true else
+                  if negb (in_scope I dflt) then true else
                   let r' := rput limit (k, v, T, dflt) r in
                   option_eqb Nat.eqb (Some v) (ob_val ob) && negb (ob_err ob) && ob_fetched ob &&
-                  keys_ok limit r' ob && spec_run limit dflt T r' ops' os'
+                  keys_ok limit r' ob && spec_run I limit dflt T r' ops' os'
               | None =>    (* fetch failed: error, nothing cached *)
                   option_eqb Nat.eqb None (ob_val ob) && ob_err ob && ob_fetched ob &&
-                  keys_ok limit r ob && spec_run limit dflt T r ops' os'
+                  keys_ok limit r ob && spec_run I limit dflt T r ops' os'
               end
           end
       | KTick =>
@@ -96,14 +103,15 @@ Fixpoint spec_run (limit dflt : Z) (T : nat) (r : list rentry) (ops : list cop) 
           let present e := existsb (Nat.eqb (rkey e)) (ob_keys ob) in
           (* nothing appears; what disappears is in its window; what stays is not overdue *)
           forallb (fun k => existsb (fun e => rkey e =? k) r) (ob_keys ob) &&
-          forallb (fun e => if present e then T' - rset e <? hi_ticks (rexp e)
-                            else (lo_ticks (rexp e) <=? T' - rset e) && (T' - rset e <=? hi_ticks (rexp e))) r &&
-          let r' := filter present r in keys_ok limit r' ob && spec_run limit dflt T' r' ops' os'
+          forallb (fun e => if present e then T' - rset e <? hi_ticks I (rexp e)
+                            else (lo_ticks I (rexp e) <=? T' - rset e) && (T' - rset e <=? hi_ticks I (rexp e))) r &&
+          let r' := filter present r in keys_ok limit r' ob && spec_run I limit dflt T' r' ops' os'
       end
   | _, _ => false
   end.
 
-Definition cache_spec_ok (c : ccase) : bool := spec_run (c_limit c) (c_exp c) (c_phase c) [] (c_ops c) (c_obs c).
+Definition cache_spec_ok (c : ccase) : bool :=
+  negb (c_hung c) && (0 <? c_ivl c)%Z && spec_run (c_ivl c) (c_limit c) (c_exp c) (c_phase c) [] (c_ops c) (c_obs c).
 
 (* ---- the jitter on its own: mathx.Unstable.AroundDuration / AroundInt with the cache's deviation ----
    one scripted draw d (an Int63) per result; Float64() = d / 2^63 *)
